@@ -31,6 +31,7 @@ inline std::string p_parse_fail(int slot) {
 inline std::string p_construct(int slot) {
     cJSON* o = cJSON_CreateObject(); cJSON_AddNumberToObject(o, "n", 7 + slot); cJSON_AddStringToObject(o, "s", ("str" + S(slot)).c_str()); cJSON* a = cJSON_AddArrayToObject(o, "a");
     for (int i = 0; i < 4; i++) cJSON_AddItemToArray(a, cJSON_CreateNumber(i * 10 + slot)); cJSON_AddItemToObject(o, "t", cJSON_CreateTrue()); cJSON_AddNullToObject(o, "z");
+    { char ctl[8] = { 'c', 1, (char)(2 + slot), 0x1f, (char)(0x0e + slot), '\n', 0 }; cJSON_AddStringToObject(o, "ctl", ctl); }   // control characters without a short escape
     std::string r = take(cJSON_PrintBuffered(o, 5 + slot, 1)) + "|" + take(cJSON_PrintBuffered(o, 500, 0)); cJSON_Delete(o); return r;
 }
 inline std::string p_numbers(int slot) {
